@@ -629,6 +629,27 @@ def dsettles (initialDelay : Option Tick) (yielding : Bool) (e : TEnv) (os : Nat
     | .exit => true
     | .cont l' => dsettles initialDelay yielding e os k l'
 
+/-! ### Obeying the stop flag: the wrapper returns at once, without calling the function again -/
+
+/-- Follow `_timer` from `l` for at most `k` micro-steps while nothing else runs: `some n` = it has RETURNED without
+    ever suspending, having invoked the handler `n` times in all; `none` = it suspended, or is still inside. -/
+def returnsAtOnce (c : TCfg) (e : TEnv) (os : Nat → Outcome) : Nat → TLoc → Option Nat
+  | 0, _ => none
+  | k + 1, l =>
+    match tstep c e os l with
+    | .exit _ => some l.runs
+    | .cont l' => returnsAtOnce c e os k l'
+    | .susp _ => none
+
+/-- the same for `_daemon` -/
+def dreturnsAtOnce (initialDelay : Option Tick) (yielding : Bool) (e : TEnv) (os : Nat → Outcome) : Nat → DLoc → Option Nat
+  | 0, _ => none
+  | k + 1, l =>
+    match dstep initialDelay yielding e os l with
+    | .exit => some l.runs
+    | .cont l' => dreturnsAtOnce initialDelay yielding e os k l'
+    | .susp _ => none
+
 /-! ### Statement vocabulary of the property theorems -/
 
 /-- The memory was forgotten (`known = false`: a DELETED event was processed) while an instance that
